@@ -1398,6 +1398,17 @@ def eval_batch(batch):
                               'names': analyse(run_case(c2, o2.get('run', 0)))['names'], 'answer': {k: a2.get(k) for k in ('prop', 'wf', 'accept')}},
                              f2, 'monitor false on the implementation trace: %s' % '; '.join(f2))
             elif div:
+                # a divergence must reproduce: a leftover daemon thread of an earlier case in this worker process can still
+                # hold sys.stderr (doit's per-action stream swap, finding stdout-overlap-threads), and then the error text of
+                # THIS case is lost and the outcome cannot be classified.  Evaluate the case once more before counting it.
+                try:
+                    (c3, o3, a3), = eval_cases([case])
+                    f3, d3 = judge_one(c3, o3, a3)
+                except Exception:  # noqa
+                    f3, d3 = None, div
+                if not d3 and not f3:
+                    st.count('divergence_not_reproduced_on_rerun')
+                    continue
                 st.divergence({'case': case_key(case), 'rendered': render(case), 'obs': obs,
                                'names': analyse(run_case(case, obs.get('run', 0)))['names'], 'answer': ans}, div)
     return st
